@@ -558,3 +558,56 @@ func genConvSeq(w *bufio.Writer, r *rng, id int) {
 	}
 	fmt.Fprintf(w, "end\n")
 }
+
+// ---------------------------------------------------------------- C09: Redefine with generated converters
+
+// genRedefGen: the converter on the planned path is produced by a ConverterGen during graph
+// construction; Redefine must not run its body either.
+func genRedefGen(w *bufio.Writer, r *rng, id int) {
+	T := r.intn(4)
+	U := 4 + r.intn(3)
+	sc := &scenario{errOwner: map[int]int{}}
+	tl := lab{Ty: U}
+	if r.chance(1, 2) {
+		tl.Name = "a"
+	}
+	target := &fnSpec{ID: 0, Ins: []lab{tl}, Script: "ok", OForm: "pos", Form: []string{"struct", "ptr", "pos"}[r.intn(3)]}
+	if tl.Name != "" && target.Form == "pos" {
+		target.Form = "struct"
+	}
+	conv := &fnSpec{ID: 1, Ins: []lab{{Ty: T}}, Outs: []lab{{Ty: U}}, Script: "ok", Form: "pos", OForm: "pos", Dyn: []int{-1}}
+	sc.Funcs = []*fnSpec{target, conv}
+	if err := sc.buildAll(); err != nil {
+		fmt.Fprintf(w, "scn redefgen %d builderr\nend\n", id)
+		return
+	}
+	gen := am.ConverterGen(func(v am.Value) (*am.Func, error) {
+		if v.Type != tyOf(T) {
+			return nil, nil
+		}
+		return conv.fn, nil
+	})
+	fmt.Fprintf(w, "scn redefgen %d T=%d U=%d\n", id, T, U)
+	w.Flush()
+	supplied := r.chance(1, 2)
+	var opts []am.Arg
+	opts = append(opts, gen)
+	if supplied {
+		opts = append(opts, am.Typed(mkValue(T, 1, -1).Interface()))
+	} else {
+		// nothing supplied: the type-T requirement of the generated converter becomes an input of the
+		// redefined function; a named T value makes the generator fire
+		opts = append(opts, am.FilterInput(am.FilterType(tyOf(T))), am.Named("seed", mkValue(T, 2, -1).Interface()))
+	}
+	for k := 0; k < 2; k++ {
+		before := conv.execs + target.execs
+		var err error
+		pan := recovered(func() { _, err = target.fn.Redefine(opts...) })
+		fmt.Fprintf(w, "rd %d execs=%d err=%v panic=%v\n", k, conv.execs+target.execs-before, err != nil, pan)
+	}
+	// afterwards a real call runs the generated converter exactly once
+	before := conv.execs
+	var res am.Result
+	pan := recovered(func() { res = target.fn.Call(gen, am.Typed(mkValue(T, 3, -1).Interface())) })
+	fmt.Fprintf(w, "call execs=%d ok=%v panic=%v\nend\n", conv.execs-before, !pan && res.Err() == nil, pan)
+}
